@@ -64,6 +64,8 @@ def run(ctx, obs):
     from ..rules import sweeps
     sweeps.run(ctx, obs, 'C03')
     prog = ctx.prog
+    xi_linear(ctx, obs, M + '_get_v')
+    xi_linear(ctx, obs, 'util.matrix.get_v')
     dispatch(ctx, obs)
     # AXIS: every measure and helper returns (A, B)
     kernels = [M + x for x in COMPARE_FUNCS] + [M + '_cosine', M + '_cosine_cov_weighted',
@@ -87,6 +89,31 @@ def run(ctx, obs):
     for fn in ('compare_cosine_cov_weighted', 'compare_correlation_cov_weighted', '_cosine_cov_weighted',
                '_cosine_cov_weighted_slow'):
         fwd_same_name(ctx, obs, M + fn, ['sigma_k', 'nan_idx'])
+
+
+def xi_linear(ctx, obs, q, rule='DEG'):
+    """Xi = C Sigma C' is linear in the pattern covariance for every form of sigma_k; V = Xi o Xi is then quadratic."""
+    from ..rules.degree import degree
+    prog = ctx.prog
+    f = prog.func(q)
+    r = ctx.dep.result(q)
+    n = 0
+    for node, _, _ in r.returns:
+        if node is None or node.value is None:
+            continue
+        d = degree(r, node.value, 'sigma_k')
+        n += 1
+        con = 'the RDM covariance V = Xi o Xi is quadratic in sigma_k (Xi = C Sigma C\' is linear in it)'
+        if d is None:
+            obs.unk(rule, q, con, f'degree of `{norm(node.value)[:50]}` in sigma_k not determined', where(prog, f, node))
+        elif d == 2:
+            obs.ok(rule, q, con, '', where(prog, f, node))
+        else:
+            obs.bad(rule, q, con, f'`{norm(node.value)[:50]}` has degree {d} in sigma_k on some path (e.g. the contrast matrix scaled by the '
+                    f'variances and multiplied with itself gives C diag(s^2) C\'): vector and matrix forms of the same covariance no '
+                    f'longer give the same V', where(prog, f, node))
+    if n == 0:
+        obs.unk(rule, q, 'degree of V in sigma_k', 'no return value')
 
 
 def dispatch(ctx, obs, rule='EXH'):
